@@ -1,5 +1,5 @@
 import RQ.Driver.Proto
-import RQ.Spec.Push
+import RQ.Spec.Abs
 /-! Engine `W`: whole `push` invocations -/
 namespace RQ.PushEngine
 open RQ RQ.Proto RQ.Push
@@ -140,6 +140,32 @@ def specVerdict (fs0 : FS) (invs impl : List String) : String := Id.run do
     fs := parseTree implTree
   return "ok"
 
+/-- executable check of the statement of `RQ.Abs.apply_refines` (model application loop = abstract
+specification) on the generated workspace — validates the theorem's statement, not the implementation -/
+def absVerdict (fs0 : FS) (invs impl : List String) : String := Id.run do
+  let mut fs := fs0
+  for (a, r) in invs.zip impl do
+    let inv := parseArgs (if a == "-" then [] else a.splitOn " ") {}
+    match plan inv.cfg fs with
+    | .apply range =>
+      match applyLoop fs inv.cfg range 0 {}, Abs.applyRange fs inv.cfg range 0 [] with
+      | .ok (st, k, rejs), .ok (t, k', rejs') =>
+        if k != k' then return "FAIL:k"
+        if rejs != rejs' then return "FAIL:rejs"
+        let names := st.mem.map (·.2.1)
+        let t1 := Abs.ofMem st.mem
+        for n in (if inv.cfg.dryRun then [] else names) do   -- a dry run does not bother to undo the failing patch
+          match Abs.look t1 fs n, Abs.look t fs n with
+          | .ok x, .ok y => if x != y then return s!"FAIL:tree:{hexOf n}:model={reprStr x}:abs={reprStr y}".replace " " "_"
+          | .error _, .error _ => pure ()
+          | _, _ => return "FAIL:tree-err"
+        if !(t.all (fun e => t1.any (fun e' => e'.1 == e.1))) then return "FAIL:names"
+      | .error e, .error e' => if e != e' then return "FAIL:errkind"
+      | _, _ => return "FAIL:ok-vs-error"
+    | _ => pure ()
+    fs := parseTree (fieldOf r "tree")
+  return "ok"
+
 /-- C19 on the implementation: nothing outside the working directory appeared, vanished or changed -/
 def c19 (impl : List String) : String :=
   if impl.all (fun r => fieldOf r "outside" == "ok") then "ok" else "FAIL:touched-outside"
@@ -157,7 +183,7 @@ def step (fields : List String) : String :=
     let eqs := (m.zip impl).map (fun (a, b) => dropSame a == dropSame b)
     let firstBad := (eqs.zipIdx.find? (fun (e, _) => !e)).map (·.2)
     let ok := m.length == impl.length && eqs.all (fun b => b)
-    s!"{cid} eq={boolS ok} firstbad={optNatS firstBad} SPEC={specVerdict (parseTree tree) invs impl} C10={c10 invs impl} C15={c15 impl} C19={c19 impl} C11={c11 impl} model={"|".intercalate m}"
+    s!"{cid} eq={boolS ok} firstbad={optNatS firstBad} SPEC={specVerdict (parseTree tree) invs impl} ABS={absVerdict (parseTree tree) invs impl} C10={c10 invs impl} C15={c15 impl} C19={c19 impl} C11={c11 impl} model={"|".intercalate m}"
   | _ => "bad-line"
 
 end RQ.PushEngine
